@@ -19,7 +19,7 @@ RULE = ('corpus; approval profiles over 2..6 candidates (1..7 distinct ballots, 
         'and satisfies justified representation; SPAV round = unique argmax. non-trivial = more than two ballots; distinct by case hash')
 PARTIAL = ['allocated score: the clause is proved for every round without a tie and positive ballot weights; rounds with level leaders follow the code (all elected in set-iteration order, or one tie entry for several seats: C12_alloc_tie_*_refuted) and the ValueError of the subtraction loop is characterised exactly (crash_cond, C12_alloc_crash_refuted)',
            'STAR: the run-off clause is proved for one seat with two untied finalists (C12_star_runoff); other run-off sizes are modelled and compared only',
-           'MJ default tie-break for more than one seat: only the median clause (C12_mj_highest_median) is proved']
+           'MJ default tie-break for more than one seat: only the median clause (C12_mj_highest_median) is proved; the multi-copy removal step = mj_ch single removals (C12_mj_multi_copy) assumes non-negative counts and numerically distinct grades per candidate']
 TRUSTED = []
 _shared = {}
 
